@@ -50,6 +50,8 @@ CONTEXTS = [
     ('202-', [202126], [202000], 0, -2, 0),
     ('207', [207001], [207000], 0, 0, 1),
     ('201+202', [201130, 202129], [201000, 202000], 2, 1, 0),
+    # scale-0 elements widened to 54..64 bits: integers beyond 2^53 (no float holds them) read back exactly
+    ('201wide', 'WIDE', [201000], 0, 0, 0),
     ('203', None, None, 0, 0, 0),
     ('203+207', None, None, 0, 0, 1),
 ]
@@ -103,6 +105,13 @@ def element_contexts(ctx, enc, dec, B, eid, mtv):
     name, unit, scale, ref, width = B[eid]
     rng = ctx.rng
     for cname, opn, cls, dw, ds, m207 in CONTEXTS:
+        if opn == 'WIDE':
+            if scale != 0:
+                continue
+            dw = rng.choice([54, 57, 60, 63, 64]) - width
+            if not 0 < dw <= 127:
+                continue
+            opn = [201128 + dw]
         w = width + dw + ((10 * m207 + 2) // 3 if m207 else 0)
         s = scale + ds + m207
         r = ref * 10 ** m207
